@@ -207,6 +207,7 @@ pub fn run_resp(case: &RespCase) -> RespOut {
         attohttpc::RequestBuilder::new(method_of(&case.method), "http://verif.test/x")
             .max_headers(case.max_headers)
             .allow_compression(false)
+            .follow_redirects(false)
             .send()
     }));
     out.pulled_at_head = log.lock().unwrap().pulled;
